@@ -25,6 +25,8 @@ CONSTANTS Starts, Spans, StepsOut,   \* parameter grids of iter(start, start+spa
           DateLists,                 \* explicit date lists
           H,                         \* internal step of the numerical propagator (ticks)
           ELo, EHi, EN,              \* ephemeris table: nodes ELo, ELo+EN, ..., EHi
+          EExtra,                    \* ... plus these ticks (a table that is NOT uniformly sampled: two successive steps, an
+                                     \* event recorded between two samples); {} for a uniform table
           Order,                     \* Lagrange order of ephemerides (8)
           MaxCalls,
           Orbits                     \* orbit objects sharing ONE propagator instance
@@ -47,9 +49,10 @@ ExpIter(a, b, s) == Iter(a, b, Dir(a, b, s), TRUE)
 
 \* ephemeris: same dates, but anything outside the table is refused; step 0 encodes "step = None": the stored
 \* nodes between start and stop
-Nodes == {ELo + k * EN : k \in 0..((EHi - ELo) \div EN)}
-RECURSIVE NodesFrom(_, _, _)
-NodesFrom(x, lo, hi) == IF x > EHi THEN <<>> ELSE (IF x >= lo /\ x <= hi THEN <<x>> ELSE <<>>) \o NodesFrom(x + EN, lo, hi)
+Nodes == {ELo + k * EN : k \in 0..((EHi - ELo) \div EN)} \cup {x \in EExtra : ELo < x /\ x < EHi}
+RECURSIVE SortedSeq(_)
+SortedSeq(S) == IF S = {} THEN <<>> ELSE LET m == CHOOSE x \in S : \A y \in S : x <= y IN <<m>> \o SortedSeq(S \ {m})
+NodesFrom(x, lo, hi) == SortedSeq({n \in Nodes : x <= n /\ lo <= n /\ n <= hi})
 Reverse(s) == [i \in 1..Len(s) |-> s[Len(s) + 1 - i]]
 ExpEphIter(a, b, s) ==
   IF a < ELo \/ a > EHi \/ b < ELo \/ b > EHi THEN Raise
@@ -98,8 +101,8 @@ CallPropagate(o, t) ==
 CallIter(o, a, span, s) ==
   /\ calls' = Append(calls, [op |-> "iter", o |-> o, a |-> a, b |-> a + span, s |-> s, dates |-> <<>>])
   /\ bound' = o
-  /\ expected' = ExpIter(a, a + span, s)
-  /\ kn' = KNDates(a, a + span, s)
+  /\ expected' = ExpIter(a, a + span, IF s = 0 THEN H ELSE s)      \* step None: the propagator's own step (numerical propagators)
+  /\ kn' = KNDates(a, a + span, IF s = 0 THEN H ELSE s)
   /\ eph' = EphDates(a, a + span, Dir(a, a + span, s))
   /\ expeph' = ExpEphIter(a, a + span, s)
 
@@ -128,9 +131,9 @@ ContractShape ==
       c.op = "iter" =>
         /\ expected # <<>> /\ expected[1] = c.a
         /\ \A i \in 1..Len(expected) : IF c.b >= c.a THEN expected[i] <= c.b ELSE expected[i] >= c.b
-        /\ \A i \in 1..(Len(expected) - 1) : expected[i + 1] - expected[i] = Dir(c.a, c.b, c.s)
-        /\ LET last == expected[Len(expected)] IN
-             IF c.b >= c.a THEN last + c.s > c.b ELSE last - c.s < c.b
+        /\ \A i \in 1..(Len(expected) - 1) : expected[i + 1] - expected[i] = Dir(c.a, c.b, IF c.s = 0 THEN H ELSE c.s)
+        /\ LET last == expected[Len(expected)] st == IF c.s = 0 THEN H ELSE c.s IN
+             IF c.b >= c.a THEN last + st > c.b ELSE last - st < c.b
 
 \* candidate generators: where do the implementation-shaped models leave the contract?
 KNAgrees  == kn = expected
